@@ -259,7 +259,7 @@ def concat_case(ctx, kind, frames, axis, union, index, columns, fill, as_generat
 def random_concat_cases(ctx):
     import static_frame as sf
     rng = ctx.rng
-    n = ctx.n(500, 8000)
+    n = ctx.n(500, 6000)
     for _ in range(n):
         axis = rng.choice((0, 1))
         union = rng.random() < 0.6
@@ -318,7 +318,7 @@ def layout_cases(ctx):
     block layout of each: the strategy (block / reblock / column) is decided by the layouts alone."""
     import static_frame as sf
     rng = ctx.rng
-    patterns = ['iii', 'iif', 'ifi'] if ctx.tier == 'quick' else [''.join(p) for p in itertools.product('if', repeat=3)] + ['iUU', 'ii', 'if', 'i', 'iiii', 'iiff']
+    patterns = ['iii', 'iif', 'ifi'] if ctx.tier == 'quick' else [''.join(p) for p in itertools.product('if', repeat=3)] + ['ii', 'if', 'i', 'iiff']
     zoo_frames = []
     for pat in patterns:
         for layout in zoo.layouts_for(dtypes_of(pat)):
@@ -327,13 +327,13 @@ def layout_cases(ctx):
     pairs = [(x, y) for x in zoo_frames for y in zoo_frames if len(x[0]) == len(y[0])]
     if ctx.tier != 'quick':
         trip = [(x, y, z) for x in zoo_frames for y in zoo_frames for z in zoo_frames if len(x[0]) == len(y[0]) == len(z[0]) == 3]
-        pairs = pairs + rng.sample(trip, min(len(trip), ctx.n(0, 1500)))
+        pairs = pairs + rng.sample(trip, min(len(trip), ctx.n(0, 1000)))
     for combo in pairs:
         frames = []
         pos = 0
         for pat, layout in combo:
             rows = 1 if len(combo) == 3 else 2
-            f, _, _ = gen_frame(rng, [f'r{pos + i}' for i in range(rows)], cols[:len(pat)], kinds=list(pat), layout=layout)
+            f, _, _ = gen_frame(rng, [pos + i for i in range(rows)], cols[:len(pat)], kinds=list(pat), layout=layout)
             pos += rows
             frames.append(f)
         ctx.count('layouts:' + strategy_of(frames))
@@ -412,7 +412,7 @@ def gen_series_list(ctx, rng, k, unique):
 def series_concat_cases(ctx):
     import static_frame as sf
     rng = ctx.rng
-    for _ in range(ctx.n(150, 2500)):
+    for _ in range(ctx.n(150, 2000)):
         k = rng.choice((0, 1, 2, 2, 3, 4))
         malformed = rng.random() < 0.15
         ss = gen_series_list(ctx, rng, k, unique=not malformed)
@@ -452,7 +452,7 @@ def gen_keys(rng, k, dup):
 def items_cases(ctx):
     import static_frame as sf
     rng = ctx.rng
-    for _ in range(ctx.n(150, 2500)):
+    for _ in range(ctx.n(150, 2000)):
         axis = rng.choice((0, 1))
         union = rng.random() < 0.6
         k = rng.choice((0, 1, 2, 2, 3, 3))
@@ -490,7 +490,7 @@ def items_cases(ctx):
                    {'call': 'sf.Frame.from_concat_items', 'axis': axis, 'union': union, 'fill_value': repr(fill), 'keys': keys,
                     'inputs': [frame_desc(f) for f in frames], 'observed': frame_desc(out) if ok else lit.err_class(out)},
                    m=f'MV_concat_items_ok {args}', s=f'SV_concat_items_ok {args}', tags=tags, nontrivial=k >= 2)
-    for _ in range(ctx.n(100, 2000)):
+    for _ in range(ctx.n(100, 1500)):
         k = rng.choice((0, 1, 2, 2, 3, 3))
         dup = rng.random() < 0.1
         keys = gen_keys(rng, k, dup)
@@ -587,7 +587,7 @@ def overlay_case(ctx, kind, frames, union, index, columns, as_generator=False):
 def overlay_cases(ctx):
     import static_frame as sf
     rng = ctx.rng
-    for _ in range(ctx.n(300, 5000)):
+    for _ in range(ctx.n(300, 4000)):
         union = rng.random() < 0.7
         k = rng.choice((1, 2, 2, 3, 3, 4))
         pool = POOLS[rng.choice(('str', 'int'))]
@@ -600,7 +600,7 @@ def overlay_cases(ctx):
         columns = rng.sample(pool[:5], rng.randint(1, 4)) if rng.random() < 0.12 else None
         ctx.count(f'overlay:index-{imode}', f'overlay:columns-{cmode}')
         yield overlay_case(ctx, 'api:frame.from_overlay', frames, union, index, columns, as_generator=rng.random() < 0.2)
-    for _ in range(ctx.n(200, 3000)):
+    for _ in range(ctx.n(200, 2500)):
         union = rng.random() < 0.7
         k = rng.choice((1, 2, 2, 3, 3, 4))
         pool = POOLS[rng.choice(('str', 'int'))]
